@@ -15,7 +15,7 @@ import (
 	"time"
 )
 
-const c02Rule = "byte strings from three streams: (a) structure-aware mutations of valid encodings of generated profiles (19 named strategies: length-prefix edits, id 0 / duplicate ids, dangling references, out-of-table string indices, function removed behind a line, duplicated fields, concatenations, value-count edits, wire-type edits, string-table edits, over-long varints, bit flips, truncations, …), (b) random wire-format field soups, (c) legacy inputs: mutated repository test inputs (text: value-level edits of the numeric columns of records and headers — one column 0 / 1 / negative / huge / overflowing while its neighbours stay ordinary, all-but-one zero, all zero — edits of the trailing memory map (mapping name patterns such as empty / only \"(deleted)\" / \"[\" / bracketed / .so variants / very long / non-UTF-8, permissions, offsets, adjacent, overlapping, inverted and extreme ranges, attribute and log-prefix lines, /proc/maps and brief forms), plus line/number/hex edits; binary CPU: word-level edits of nstk/count/header/end marker) and legacy documents of every flavour (heap, heap_v2, heapz_v2, growth, fragmentation, contentionz, mutex, threadz, count, java heapz, java contentionz, binary CPU) printed with every numeric column drawn from the same per-record value patterns and a generated trailing memory map of the same dimensions; (h) a header-field grid of valid symbolized profiles (drop_frames / keep_frames each empty, valid, invalid, match-all × default_sample_type empty/known/unknown × doc_url × period_type × comments), each also through the real binary; each of (a)-(c) also wrapped in valid and corrupt gzip. (v) valid symbolized profiles with degenerate value columns (all zero, cancelling per column, zero first/last column, MinInt64/MaxInt64, single sample, -1 divisor column, diff-base labels): every report kind × 26 assignments of the numeric options (-mean, -divide_by tiny…huge/negative, -sample_index by position/name/unknown, -drop_negative, -unit) in-process and a sample of the cross through the real binary, also with -base/-diff_base -normalize of the profile itself. Every accepted profile goes through Write/Copy/Compact/String, the driver's post-parse pipeline (RemoveUninteresting, CheckValid, NumLabelUnits, SampleIndexByName, nil and match-all filters, Scale/ScaleN, Normalize+Scale(-1)+Merge with itself, label edits, Aggregate at 8 granularities) and 11 in-process reports with default options plus three (report kind, numeric option assignment) pairs chosen by a hash of the profile, one of them always with -mean. Non-trivial = reaches a mechanism the property anchors: the input is accepted; or the protobuf decoder got far enough to reject it at a bounds/type/string-index/concatenation check; or it parsed and the validity gate rejected it; or a legacy parser recognised the format (accepted or failed inside it). Distinct by input bytes."
+const c02Rule = "byte strings from three streams: (a) structure-aware mutations of valid encodings of generated profiles (19 named strategies: length-prefix edits, id 0 / duplicate ids, dangling references, out-of-table string indices, function removed behind a line, duplicated fields, concatenations, value-count edits, wire-type edits, string-table edits, over-long varints, bit flips, truncations, …), (b) random wire-format field soups, (c) legacy inputs: mutated repository test inputs (text: value-level edits of the numeric columns of records and headers — one column 0 / 1 / negative / huge / overflowing while its neighbours stay ordinary, all-but-one zero, all zero — edits of the trailing memory map (mapping name patterns such as empty / only \"(deleted)\" / \"[\" / bracketed / .so variants / very long / non-UTF-8, permissions, offsets, adjacent, overlapping, inverted and extreme ranges, attribute and log-prefix lines, /proc/maps and brief forms), plus line/number/hex edits; binary CPU: word-level edits of nstk/count/header/end marker) and legacy documents of every flavour (heap, heap_v2, heapz_v2, growth, fragmentation, contentionz, mutex, threadz, count, java heapz, java contentionz, binary CPU) printed with every numeric column drawn from the same per-record value patterns and a generated trailing memory map of the same dimensions; (h) a header-field grid of valid symbolized profiles (drop_frames / keep_frames each empty, valid, invalid, match-all × default_sample_type empty/known/unknown × doc_url × period_type × comments), each also through the real binary; each of (a)-(c) also wrapped in valid and corrupt gzip. (v) valid symbolized profiles with degenerate value columns (all zero, cancelling per column, zero first/last column, MinInt64/MaxInt64, single sample, -1 divisor column, diff-base labels): every report kind × 26 assignments of the numeric options (-mean, -divide_by tiny…huge/negative, -sample_index by position/name/unknown, -drop_negative, -unit) in-process and a sample of the cross through the real binary, also with -base/-diff_base -normalize of the profile itself. (z) boundary sizes: valid profiles in which every length-delimited element the encoder emits (Sample by stack depth and label count, Location by line count, strings, packed value and comment lists, scalar fields of every varint width) takes every encoded size from 0 to ~320 and crosses 127/128 and 16383/16384 (2^21 in the thorough tier); the sizes reached are read back from the written bytes (z-sizes:* in the distribution). Every accepted profile goes through Write/Copy/Compact/String, the driver's post-parse pipeline (RemoveUninteresting, CheckValid, NumLabelUnits, SampleIndexByName, nil and match-all filters, Scale/ScaleN, Normalize+Scale(-1)+Merge with itself, label edits, Aggregate at 8 granularities) and 11 in-process reports with default options plus three (report kind, numeric option assignment) pairs chosen by a hash of the profile, one of them always with -mean. Non-trivial = reaches a mechanism the property anchors: the input is accepted; or the protobuf decoder got far enough to reject it at a bounds/type/string-index/concatenation check; or it parsed and the validity gate rejected it; or a legacy parser recognised the format (accepted or failed inside it). Distinct by input bytes."
 
 // The generated run and every replay execute in a CHILD process with a capped address space:
 // an unrecoverable runtime error of the code under test (stack overflow, out of memory,
@@ -220,6 +220,17 @@ func runC02(c *Ctx) {
 			c.Res.HarnessError = err.Error()
 			return
 		}
+		if cs.Profile != "" {
+			p, err := ParseCanon(cs.Profile)
+			if err != nil {
+				c.Res.HarnessError = "replay profile: " + err.Error()
+				return
+			}
+			c02CheckGenerated(c, p, cs.Stream)
+			c.Res.Count(cs.Profile, true)
+			os.Remove(filepath.Join(c.Dir, "inflight.json"))
+			return
+		}
 		raw, err := hex.DecodeString(cs.Bytes)
 		if err != nil {
 			c.Res.HarnessError = "replay bytes: " + err.Error()
@@ -254,7 +265,7 @@ func runC02(c *Ctx) {
 		if aborted {
 			return
 		}
-		if len(raw) > 64<<10 {
+		if len(raw) > 64<<10 && !strings.HasPrefix(stream, "z:") { // boundary-size inputs keep their size
 			raw = raw[:64<<10]
 		}
 		o := c02Check(c, raw, stream, false)
@@ -408,6 +419,46 @@ func runC02(c *Ctx) {
 			c.Res.Hit("cli:inputs")
 			c02CLI(c, raw, "h:header-grid", []string{"-top", c02CLICommands[r.Intn(len(c02CLICommands))]})
 		}
+	}
+	// (z) boundary sizes of every length-delimited element the encoder emits
+	sizes := map[string]map[int]bool{}
+	for _, bc := range c02BoundaryCases(r, scale > 1) {
+		if aborted {
+			break
+		}
+		raw, pn := c02WriteU(bc.p)
+		if pn != "" {
+			c.Violation("C02/write/panic-on-generated", "WriteUncompressed panics on a valid generated profile ("+bc.name+"): "+pn, c02Case{Profile: Canon(bc.p), Stream: "z:" + bc.name})
+			continue
+		}
+		c.Res.Hit("z-case:" + bc.name)
+		c02ElementSizes(raw, func(kind string, size int) {
+			if sizes[kind] == nil {
+				sizes[kind] = map[int]bool{}
+			}
+			sizes[kind][size] = true
+		})
+		if o := c02CheckGenerated(c, bc.p, "z:"+bc.name); o != nil {
+			c.Res.Hit("stream:z:" + bc.name)
+			c.Res.Count(fmt.Sprintf("z:%s:%d", bc.name, len(raw)), true)
+		}
+	}
+	for kind, set := range sizes {
+		n, around128, around16k := 0, 0, 0
+		for sz := range set {
+			if sz <= 320 {
+				n++
+			}
+			if sz >= 126 && sz <= 130 {
+				around128++
+			}
+			if sz >= 16382 && sz <= 16386 {
+				around16k++
+			}
+		}
+		c.Res.Dist[fmt.Sprintf("z-sizes:%s:distinct<=320", kind)] = n
+		c.Res.Dist[fmt.Sprintf("z-sizes:%s:of-126..130", kind)] = around128
+		c.Res.Dist[fmt.Sprintf("z-sizes:%s:of-16382..16386", kind)] = around16k
 	}
 	// (v) degenerate value columns: valid symbolized profiles whose columns are all zero, cancel
 	// to zero, have a zero first / last column, MinInt64 / MaxInt64, a single sample, …; every
